@@ -23,18 +23,23 @@
 (* (P) invariants Isolated, Repeatable, GlobalIndependent, HashIndependent on `out`.     *)
 (*                                                                                      *)
 (* MODE = "mc"    (IOEnv.IDIOM selects one idiom, a group, or "all")                      *)
-(*     The seeding idioms found in the code are alternative definitions of Exec:         *)
-(*       private                random.Random(seed) created inside the call              *)
+(*     The seeding idioms are alternative definitions of Exec.  Sound ones, which the     *)
+(*     current code follows (the driver maps every component to one of them):            *)
+(*       private                generator created inside the call from the seed alone    *)
 (*                              (LAO*, LRTDP, A*, BFS, TD learners, R-MAX, implicit      *)
-(*                              distributions)                                           *)
+(*                              distributions; bounded policy iteration and gradient     *)
+(*                              ascent since `seed if seed is not None else ...`)        *)
 (*       threaded               caller's generator passed to every sampling call         *)
-(*                              (Policy.run_on / evaluate_on)                            *)
-(*       seed_or_draw_numpy     `seed or np.random.randint(..)`  (bounded policy iter.)  *)
-(*       seed_or_draw_torch     `seed or torch.randint(..)`      (gradient ascent)       *)
+(*                              (Policy.run_on / evaluate_on, POMDPPolicy.run_on)        *)
+(*       stable_obj_seed        per-(state, option) seed from a textual rendering that   *)
+(*                              does not involve the builtin hash (semi-MDP simulation)  *)
+(*     Defective ones, kept as model-level demonstrations of why they are wrong (msdm     *)
+(*     used them before the repairs; no component is mapped to them any more, so a        *)
+(*     recurrence in the code is an ordinary violation of the trace invariants):         *)
+(*       seed_or_draw_numpy     `seed or np.random.randint(..)`  (seed 0 = no seed)      *)
+(*       seed_or_draw_torch     `seed or torch.randint(..)`                              *)
 (*       unthreaded_first_draw  roll-out whose initial-state draw omits rng=             *)
-(*                              (POMDPPolicy.run_on)                                     *)
 (*       obj_hash               per-(state, option) seed from builtin hash((s, o, seed)) *)
-(*                              (semi-MDP option simulation)                             *)
 (*       obj_identity           the same with an object that keeps the identity hash     *)
 (*     A run returns the worst case "result = the stream it consumed".  TLC explores      *)
 (*     every idiom x seed (0 included) x label kind x initial-support size x two          *)
@@ -60,9 +65,9 @@ vars == <<tid, l, glob, memo, out, acc>>
 Range(sq) == {sq[i] : i \in 1..Len(sq)}
 Gens    == {"random", "numpy", "torch"}
 Clauses == {"isolated", "rerun", "global", "hash"}
-Idioms  == {"private", "threaded", "seed_or_draw_numpy", "seed_or_draw_torch",
+Idioms  == {"private", "threaded", "stable_obj_seed", "seed_or_draw_numpy", "seed_or_draw_torch",
             "unthreaded_first_draw", "obj_hash", "obj_identity"}
-GoodIdioms == {"private", "threaded"}
+GoodIdioms == {"private", "threaded", "stable_obj_seed"}
 
 \* ------------------------------------------------------------------ judging one run
 Prev(mm, s) == IF s \in DOMAIN mm THEN mm[s] ELSE {}
@@ -117,8 +122,10 @@ Joint(v) == [g \in Gens |-> v]
 \* Exec: stream consumed (= worst-case result) and global state after the run
 Draw(pre, g) == [pre EXCEPT ![g] = Flip(pre[g])]
 Exec(idiom, seed, lk, multi, p, pre, addr) ==
-  CASE idiom \in GoodIdioms ->
+  CASE idiom \in {"private", "threaded"} ->
          [eff |-> <<"seed", seed>>, post |-> pre]
+    [] idiom = "stable_obj_seed" ->
+         [eff |-> <<"text", seed, lk>>, post |-> pre]
     [] idiom = "seed_or_draw_numpy" ->
          IF seed # 0 THEN [eff |-> <<"seed", seed>>, post |-> pre]
          ELSE [eff |-> <<"drawn", pre["numpy"]>>, post |-> Draw(pre, "numpy")]
